@@ -152,7 +152,9 @@ theorem checkTx_rel (R : State → State → Prop) (hrefl : ∀ s, R s s) (order
 gov module for proposal messages.  `GrantsOK s` : every authz grant was given by such an address.
 A leaf handler then only ever runs for a message whose `GetSigners()[0]` may sign. -/
 
-def MaySign (a : Addr) : Prop := a < 1000 ∨ a = Mgov
+/-- key holders, the gov module account, and the accounts beyond the module range (addresses that are not key-derived —
+module-derived, group-policy, interchain accounts: they act only through authz grants present in the genesis) -/
+def MaySign (a : Addr) : Prop := a < 1000 ∨ a = Mgov ∨ 2000 ≤ a
 
 def GrantsOK (s : State) : Prop :=
   (∀ g e k, (g, e, k) ∈ s.grants → MaySign g) ∧ (∀ g e, (g, e) ∈ s.allowances → MaySign g)
